@@ -159,6 +159,25 @@ func (s *Service) loadBalancers() (*LoadBalancer, *LoadBalancer, *RolloutControl
 	return s.active, s.rollout, s.rolloutController
 }
 
+// tlsOptions returns the TLS settings in force for the service. For services on
+// a sub-path they are kept in sync with the root path service of the host (see
+// ServiceMap.syncTLSOptionsFromRootDomain), which can happen while requests
+// are being served.
+func (s *Service) tlsOptions() (enabled bool, redirect bool) {
+	s.serviceLock.Lock()
+	defer s.serviceLock.Unlock()
+
+	return s.options.TLSEnabled, s.options.TLSRedirect
+}
+
+func (s *Service) setTLSOptions(enabled bool, redirect bool) {
+	s.serviceLock.Lock()
+	defer s.serviceLock.Unlock()
+
+	s.options.TLSEnabled = enabled
+	s.options.TLSRedirect = redirect
+}
+
 func (s *Service) Dispose() {
 	active, rollout, _ := s.loadBalancers()
 
@@ -229,6 +248,9 @@ type marshalledService struct {
 func (s *Service) MarshalJSON() ([]byte, error) {
 	active, rollout, rolloutController := s.loadBalancers()
 
+	options := s.options
+	options.TLSEnabled, options.TLSRedirect = s.tlsOptions()
+
 	var rolloutTargets []string
 	if rollout != nil {
 		rolloutTargets = rollout.Targets().Names()
@@ -238,7 +260,7 @@ func (s *Service) MarshalJSON() ([]byte, error) {
 		Name:              s.name,
 		ActiveTargets:     active.Targets().Names(),
 		RolloutTargets:    rolloutTargets,
-		Options:           s.options,
+		Options:           options,
 		TargetOptions:     s.targetOptions,
 		PauseController:   s.pauseController,
 		RolloutController: rolloutController,
@@ -435,7 +457,7 @@ func (s *Service) serviceRequestWithTarget(w http.ResponseWriter, r *http.Reques
 		return
 	}
 
-	if !s.options.TLSEnabled && r.TLS != nil {
+	if tlsEnabled, _ := s.tlsOptions(); !tlsEnabled && r.TLS != nil {
 		SetErrorResponse(w, r, http.StatusServiceUnavailable, nil)
 		return
 	}
@@ -449,7 +471,8 @@ func (s *Service) serviceRequestWithTarget(w http.ResponseWriter, r *http.Reques
 }
 
 func (s *Service) shouldRedirectToHTTPS(r *http.Request) bool {
-	return s.options.TLSEnabled && s.options.TLSRedirect && r.TLS == nil
+	tlsEnabled, tlsRedirect := s.tlsOptions()
+	return tlsEnabled && tlsRedirect && r.TLS == nil
 }
 
 func (s *Service) handlePausedAndStoppedRequests(w http.ResponseWriter, r *http.Request) bool {
